@@ -329,7 +329,9 @@ pub fn replay(args: &[String]) -> Value {
         cases += 1;
         let names = names_of(&c["names"]);
         let conv = c["conv"].as_bool().unwrap_or(false);
-        let variants = [("loose", false), ("strict", false), ("loose", true)];
+        // the fourth rendering is parsed with a PARTIAL ordering (every other name, sparse ids that do not start at 0): the names
+        // it does not list get their ids from the tokenizer
+        let variants = [("loose", false), ("strict", false), ("loose", true), ("loose", false)];
         for (vi, (which, plain)) in variants.iter().enumerate() {
             let toks = c[*which].as_array().expect("tokens");
             let txt = spell(toks, &mut r, *plain);
@@ -338,12 +340,15 @@ pub fn replay(args: &[String]) -> Value {
                 spell_used.insert(t[0].as_str().unwrap_or("").to_string());
             }
             // ordering: none, or the spec's name order with distinct non-contiguous ids
+            let partial = vi == 3;
             let ordering = if vi == 1 {
                 Some(names.iter().enumerate().map(|(i, n)| NamedSymbol { name: Rc::new(n.clone()), id: 3 + 4 * i }).collect::<Vec<_>>())
+            } else if partial {
+                Some(names.iter().enumerate().filter(|(i, _)| i % 2 == ci % 2).map(|(i, n)| NamedSymbol { name: Rc::new(n.clone()), id: 1 + 3 * i }).collect::<Vec<_>>())
             } else {
                 None
             };
-            let with_order = ordering.is_some();
+            let with_order = ordering.is_some() && !partial;
             let pf = match parse(&txt, ordering) {
                 Err(m) => {
                     mism += 1;
@@ -378,12 +383,29 @@ pub fn replay(args: &[String]) -> Value {
             let got_vars: Vec<String> = pf.vars.iter().map(|v| v.name.as_ref().clone()).collect();
             let got_free: Vec<String> = pf.free_vars.iter().map(|v| v.name.as_ref().clone()).collect();
             let has_ref = c["ref"].as_bool().unwrap_or(false);
-            if got_vars != order {
+            if partial {
+                // only what the properties demand under a partial ordering: every name once, the same free variables
+                let (mut gv, mut ov, mut gf, mut ef) = (got_vars.clone(), order.clone(), got_free.clone(), exp_free.clone());
+                gv.sort();
+                ov.sort();
+                gf.sort();
+                ef.sort();
+                if gv != ov {
+                    mism += 1;
+                    *kinds.entry("vars".into()).or_insert(0) += 1;
+                    report("vars", "C09", &txt, json!({"expected_set": ov, "got": got_vars, "ordering": "partial"}));
+                }
+                if !has_ref && gf != ef {
+                    mism += 1;
+                    *kinds.entry("free_vars".into()).or_insert(0) += 1;
+                    report("free_vars", "C09", &txt, json!({"expected_set": ef, "got": got_free, "ordering": "partial"}));
+                }
+            } else if got_vars != order {
                 mism += 1;
                 *kinds.entry("vars".into()).or_insert(0) += 1;
                 report("vars", "C09", &txt, json!({"expected": order, "got": got_vars}));
             }
-            if !has_ref && got_free != exp_free {
+            if !partial && !has_ref && got_free != exp_free {
                 mism += 1;
                 *kinds.entry("free_vars".into()).or_insert(0) += 1;
                 report("free_vars", "C09", &txt, json!({"expected": exp_free, "got": got_free}));
